@@ -13,6 +13,17 @@ import subprocess
 from .. import build, core
 
 LEVEL = "exploration"
+META = dict(
+    category=LEVEL,
+    technique="exhaustive bounded enumeration of all small arrays (small-scope), differential vs trivial stable sort",
+    text="Every array of length <=12 (thorough 15) over 3 keys is pushed through the tree's mjSORT macro text "
+         "instantiated with run size 2 and 3, so each merge level / odd run count / tail copy / copy-back parity is "
+         "executed; production run size on complete pattern families for every length 0..200 (1000); every (array,k) "
+         "for mjPARTIAL_SORT; mju_insertionSort/Int. Exhaustive within the bound, which is the right level for a pure "
+         "function of a short array.",
+    note="Assumes the comparator is a preorder; arrays longer than the bound are covered only through the pattern "
+         "families; run-size scaling re-defines _mjRUNSIZE before instantiating the unmodified macro.",
+    design_ref="DESIGN.md §3 C22")
 
 
 def _run(args):
